@@ -1,5 +1,97 @@
 import BigtreeModel.Proto
-/-! Driver handler for property C05: one case (token list) in, one canonical line out. -/
+import BigtreeModel.Paths
+/-! Driver handler for property C05 (path-based constructors).
+
+`fn=<addpath|adddict|addrows|list|dict|rows> sep=<x> dup=<0|1> [tsep=<x>] [lib=…]
+ (P <xpath> <attrs>)* [T <tree>]`
+
+* `addpath`: exactly one `P`; answer `ok <addr> <tree>`; the others answer `ok <tree>`;
+* refusals: `rej:TreeError`, `rej:DuplicatedNodeError`, `rej` (any other exception);
+* result trees are printed as `( <id|n> <xname> <attrs sorted by key> child* )`, `n` = new node.
+-/
 namespace Drv.C05
-def handle (_toks : List String) : String := "unimplemented"
+open Proto Paths
+
+def showAttrsSorted (a : Attrs) : String :=
+  if a.isEmpty then "-" else
+  let kvs := a.map fun (k, v) => (hex k, showVal v)
+  let kvs := kvs.mergeSort (fun x y => !(y.1 < x.1))
+  ",".intercalate (kvs.map fun (k, v) => k ++ ":" ++ v)
+
+partial def showRes (n0 : Nat) : Tree → String
+  | .node i n a cs =>
+    "( " ++ (if i < n0 then toString i else "n") ++ " " ++ hex n ++ " " ++ showAttrsSorted a ++ " "
+      ++ String.join (cs.map fun c => showRes n0 c ++ " ") ++ ")"
+
+def showAddr (a : Addr) : String := "r" ++ String.join (a.map fun k => "." ++ toString k)
+
+def showErr : Err → String
+  | .tree => "rej:TreeError"
+  | .dup => "rej:DuplicatedNodeError"
+  | .value => "rej"
+  | .other => "rej"
+
+/-- `P <xpath> <attrs>` entries up to the `T` token (or the end) -/
+def parseItems : List String → Option (List (Str × Attrs))
+  | "P" :: p :: a :: rest => do
+    let path ← unhex p
+    let attrs ← parseAttrs a
+    let more ← parseItems rest
+    pure ((path, attrs) :: more)
+  | "T" :: _ => some []
+  | [] => some []
+  | _ :: rest => parseItems rest
+
+def treeOf (toks : List String) : Option Tree :=
+  match (toks.dropWhile (· ≠ "T")).drop 1 with
+  | [] => none
+  | rest => (parseTree rest).map (·.1)
+
+def handle (toks : List String) : String :=
+  let r : Option String := do
+    let fn ← kv toks "fn"
+    let sep ← unhex (← kv toks "sep")
+    if sep.isEmpty then none
+    let dup ← match ← kv toks "dup" with
+      | "1" => some true
+      | "0" => some false
+      | _ => none
+    let items ← parseItems toks
+    match fn with
+    | "list" =>
+      pure (match listToTree sep dup (items.map (·.1)) with
+        | .ok t => "ok " ++ showRes 0 t
+        | .error e => showErr e)
+    | "dict" =>
+      pure (match dictToTree sep dup items with
+        | .ok t => "ok " ++ showRes 0 t
+        | .error e => showErr e)
+    | "rows" =>
+      pure (match rowsToTree sep dup items with
+        | .ok t => "ok " ++ showRes 0 t
+        | .error e => showErr e)
+    | "addpath" =>
+      let tsep ← unhex (← kv toks "tsep")
+      let t ← treeOf toks
+      match items with
+      | [(p, a)] =>
+        pure (match addPath tsep sep dup t t.size p a with
+          | .ok (t', ad, _) => "ok " ++ showAddr ad ++ " " ++ showRes t.size t'
+          | .error e => showErr e)
+      | _ => none
+    | "adddict" =>
+      let tsep ← unhex (← kv toks "tsep")
+      let t ← treeOf toks
+      pure (match addDict tsep sep dup t t.size items with
+        | .ok t' => "ok " ++ showRes t.size t'
+        | .error e => showErr e)
+    | "addrows" =>
+      let tsep ← unhex (← kv toks "tsep")
+      let t ← treeOf toks
+      pure (match addRows tsep sep dup t t.size items with
+        | .ok t' => "ok " ++ showRes t.size t'
+        | .error e => showErr e)
+    | _ => none
+  r.getD "bad-op"
+
 end Drv.C05
